@@ -236,12 +236,12 @@ def enc_deaths(prop, pfx):
 # ------------------------------------------------------------------ C03
 enc_deaths("C03", "KF-C03")
 W = "enc-wellformed"
-known("KF-C03-01", "C03", W, None, r"malformed-output:nonfinite", r"feature:val:nonfinite",
+known("KF-C03-01", "C03", W, None, r"malformed-output:nonfinite", r"(non-finite:float32 @ )?feature:val:nonfinite",
       'Marshal(float32(NaN)) = NaN, nil; struct{F float32}{+Inf} -> {"F":+Inf}', "internal/encoder/vm*/vm.go OpFloat32 family has no IsNaN/IsInf test (OpFloat64 has)",
       "other non-finite float32 output", "many opcodes x 4 interpreters")
 known("KF-C03-02", "C03", "enc-reject", None, r"unrepresentable-accepted", r"non-finite:float32 @ feature:val:nonfinite",
       'as KF-C03-01 (the same executions seen by the must-reject monitor when the output happens to parse)', "see KF-C03-01", "see KF-C03-01", "see KF-C03-01")
-known("KF-C03-03", "C03", W, None, r"malformed-output:(other|empty)", r"feature:val:(bad-number|json\.Number)",
+known("KF-C03-03", "C03", W, None, r"malformed-output:(other|empty)", r"(json\.Number:number:[a-z-]+ @ )?feature:val:(bad-number|json\.Number)",
       'Marshal(json.Number("1e")) = 1e; "01", "-", "+1", ".5" likewise', "internal/encoder/encoder.go AppendNumber: checks the character class only",
       "other ill-formed json.Number output", "shares lenient scanner")
 known("KF-C03-04", "C03", "enc-reject", None, r"unrepresentable-accepted", r"json\.Number:number:.* @ feature:val:json\.Number",
